@@ -560,6 +560,9 @@ func runConfig(cfg *runCfg) error {
 	for _, c := range d.tlsFlagCases() {
 		add(c)
 	}
+	for _, c := range d.envCases(g, cfg.N/40+14) {
+		add(c)
+	}
 	// the other observations (formats, strict mode, flags, templates) are made on the Go side only
 	fstats := d.runFormats(g, cfg.N/4+8)
 
@@ -575,6 +578,8 @@ func runConfig(cfg *runCfg) error {
 			"Definition NUNKNOWNTYPE := Eval vm_compute in (count_if is_unknown_type cases : Z).\nPrint NUNKNOWNTYPE.\n" +
 			"Definition NNORETURN := Eval vm_compute in (count_if is_no_return cases : Z).\nPrint NNORETURN.\n" +
 			"Definition NTEMPLATEOK := Eval vm_compute in (count_if is_template_ok cases : Z).\nPrint NTEMPLATEOK.\n" +
+			"Definition NENVOK := Eval vm_compute in (count_if is_env_case cases : Z).\nPrint NENVOK.\n" +
+			"Definition NENVEQ := Eval vm_compute in (count_if is_env_eq_case cases : Z).\nPrint NENVEQ.\n" +
 			"Definition NTLSFLAGON := Eval vm_compute in (count_if is_tls_flag_on cases : Z).\nPrint NTLSFLAGON.\n",
 	}
 	if err := cf.Write(cfg.Out); err != nil {
